@@ -1074,6 +1074,7 @@ class CallMixin:
         fpaths = self.comp_filter(s, g)
         out = []
         normal = []   # (extra pc list, filter cond, value)
+        elt_states = []
         self._comp_ndecl = ndecl
         for s1, c in fpaths:
             if is_exc(c):
@@ -1090,6 +1091,7 @@ class CallMixin:
                         out.append((s2, v))
                     else:
                         normal.append((s2.pc[len(base_pc) + 1:], TRUE, v))
+                        elt_states.append(s2)
                         self._comp_states = getattr(self, "_comp_states", []) + [s2]
         # facts that are consequences of discharged safe/pre obligations or callee postconditions are not
         # conditions on the index: drop them from the per-index conditions
@@ -1134,12 +1136,35 @@ class CallMixin:
         if exc_conds:
             any_exc = Or(*exc_conds)
             s_ok.assume(f"(forall (({q} Int)) (=> (and (<= 0 {q}) (< {q} (seq.len {sq}))) {Not(at(any_exc, q))}))")
+        # what a callee's contract says about the element computed for index j holds for every index on the normal path, provided it
+        # speaks of j only through terms of the arguments (functional contracts); facts about fresh per-call results cannot be generalised
+        if self.contract.ghost.get("generalise_comprehension_facts"):
+            later = [d.split()[1] for d in self.decls[ndecl:] if d.startswith("(declare-")]
+            mentions_j = lambda t: _re.search(r"(?<![\w])" + _re.escape(j) + r"(?![\w])", t) is not None
+            for st_n in elt_states:
+                conds = [t for t in st_n.pc[len(base_pc) + 1:] if t not in all_facts]
+                for t in st_n.pc[len(base_pc) + 1:]:
+                    if t in all_facts and mentions_j(t) and not any(_re.search(r"(?<![\w])" + _re.escape(nm) + r"(?![\w])", t) for nm in later):
+                        s_ok.assume(f"(forall (({q} Int)) (=> (and (<= 0 {q}) (< {q} (seq.len {sq})) {at(And(*conds), q)}) {at(t, q)}))")
         r = self.fresh_val("comp", kind=kind if kind != "dict" else "dict")
         r.fresh = TRUE
         rs = f"(seqof {r.t})"
         def_mark = len(s_ok.pc)       # everything assumed from here to the return defines r (engine.vc_text drops it when r is unused)
         ctor = {"list": "k_list", "set": "k_set", "dict": "k_dict"}[kind]
         s_ok.assume(f"({ctor} {r.t})")
+        if "JSON-INTRO" in (self.contract.lemmas or []) and kind in ("list", "dict"):
+            # lemma JSON-INTRO instantiated at this result (the quantified module is not reliably triggered): either the result's
+            # members are all JSON values from index 0, or the Skolem index cx points at one that is not; for a dict, lemma
+            # DICT-ITEM at that index ties the entry to lookup by its key
+            cx = self.declare(fresh_name("jcx"), "Int")
+            if kind == "list":
+                s_ok.assume(f"(or (is_json_seq (lval {r.t}) 0) (and (<= 0 {cx}) (< {cx} (seq.len (lval {r.t}))) (not (is_json (seq.nth (lval {r.t}) {cx})))))")
+            else:
+                it_ = f"(seq.nth (ditems {r.t}) {cx})"
+                s_ok.assume(f"(or (is_json_vals (ditems {r.t}) 0) (and (<= 0 {cx}) (< {cx} (seq.len (ditems {r.t}))) (not (is_json (pval {it_})))))")
+                s_ok.assume(f"(=> (and (dict_wf {r.t}) (<= 0 {cx}) (< {cx} (seq.len (ditems {r.t})))) (and (dhas {r.t} (pkey {it_})) (= (dval {r.t} (pkey {it_})) (pval {it_}))))")
+                self.lemma_instances_used.add("DICT-ITEM")
+            self.lemma_instances_used.add("JSON-INTRO")
         passes = Or(*[And(*pcx) for pcx, c, v in normal if c == TRUE]) if normal else FALSE
         has_filter = bool(g.ifs)
         key_preserving = False
